@@ -149,13 +149,26 @@ func idsCoq(ids []int) string {
 	return "[" + strings.Join(xs, ";") + "]"
 }
 
+var rootMemo = map[string]common.Hash{}
+
+// rootOf is types.DeriveSha of the transaction list (memoised: it builds a trie).
+func (r *runner) rootOf(ids []int) common.Hash {
+	k := idsCoq(ids)
+	if h, ok := rootMemo[k]; ok {
+		return h
+	}
+	h := types.DeriveSha(r.txList(ids))
+	rootMemo[k] = h
+	return h
+}
+
 // noteBody records the root of a transaction list in the case's table.
 func (r *runner) noteBody(ids []int) {
 	k := idsCoq(ids)
 	if _, ok := r.table[k]; ok {
 		return
 	}
-	root := types.DeriveSha(r.txList(ids))
+	root := r.rootOf(ids)
 	r.table[k] = fmt.Sprint(r.rid(root))
 	r.tableOrd = append(r.tableOrd, k)
 }
@@ -179,7 +192,7 @@ func newRunner(sc *Scenario) *runner {
 		if hs.Junk {
 			h.TxHash = common.BytesToHash([]byte(fmt.Sprintf("junk-root-%d", i)))
 		} else {
-			h.TxHash = types.DeriveSha(r.txList(hs.Body))
+			h.TxHash = r.rootOf(hs.Body)
 			r.noteBody(hs.Body)
 		}
 		r.hdrs = append(r.hdrs, h)
@@ -948,6 +961,103 @@ func sortedKeys(m map[int]*request) []int {
 	return ks
 }
 
+// ---- exhaustive small scope ------------------------------------------------------
+
+// exhaustive runs EVERY sequence of up to depth letters of a 13-letter
+// alphabet (2 peers, 4 blocks of which one is empty, cache of 2 slots) on the
+// implementation, each followed by the finishing phase, and evaluates the
+// oracle.  Returns the number of sequences and the first hits.
+func exhaustive(depth int) (int, []hitRec) {
+	base := func() *Scenario {
+		return &Scenario{CacheLen: 2, CacheMem: 64 * 1024 * 1024, Start: 3, Headers: []HdrSpec{
+			{Num: 3, Parent: -1, Body: []int{1}}, {Num: 4, Parent: 0}, {Num: 5, Parent: 1, Body: []int{2, 3}}, {Num: 6, Parent: 2, Body: []int{4}}}}
+	}
+	const letters = 13
+	var hits []hitRec
+	count := 0
+	seq := make([]int, 0, depth)
+	var rec func()
+	runSeq := func() {
+		sc := base()
+		r := newRunner(sc)
+		run := func(op OpSpec) { sc.Ops = append(sc.Ops, op); r.exec(op) }
+		run(OpSpec{K: "sched", Hs: []int{0, 1, 2, 3}, From: 3})
+		honest := func(p int) [][]int {
+			var b [][]int
+			if rq := r.cur[p]; rq != nil {
+				for _, h := range rq.hs {
+					b = append(b, sc.Headers[r.hdrIdx[h.Hash()]].Body)
+				}
+			} else {
+				b = [][]int{{1}}
+			}
+			return b
+		}
+		for _, l := range seq {
+			switch l {
+			case 0:
+				run(OpSpec{K: "reserve", Peer: 0, Count: 2})
+			case 1:
+				run(OpSpec{K: "reserve", Peer: 1, Count: 1})
+			case 2:
+				run(OpSpec{K: "deliver", Peer: 0, Bodies: honest(0)})
+			case 3:
+				run(OpSpec{K: "deliver", Peer: 0})
+			case 4:
+				b := honest(0)
+				b[0] = []int{9}
+				run(OpSpec{K: "deliver", Peer: 0, Bodies: b})
+			case 5:
+				run(OpSpec{K: "deliver", Peer: 0, Bodies: honest(0)[:1]})
+			case 6:
+				run(OpSpec{K: "deliver", Peer: 1, Bodies: honest(1)})
+			case 7:
+				b := honest(1)
+				b[0] = []int{9}
+				run(OpSpec{K: "deliver", Peer: 1, Bodies: b})
+			case 8:
+				run(OpSpec{K: "expire", Peers: []int{0}})
+			case 9:
+				run(OpSpec{K: "expire", Peers: []int{1}})
+			case 10:
+				run(OpSpec{K: "revoke", Peer: 0})
+			case 11:
+				if rq := r.cur[0]; rq != nil {
+					for i, x := range r.reqs {
+						if x == rq {
+							run(OpSpec{K: "cancel", Req: i})
+						}
+					}
+				}
+			case 12:
+				run(OpSpec{K: "results"})
+			}
+		}
+		r.checkNothingLost()
+		sc.FinishAt = len(sc.Ops)
+		r.finish(vf.NewRng(uint64(count)), func(op OpSpec) { sc.Ops = append(sc.Ops, op) })
+		count++
+		if len(hits) < 3 {
+			for _, w := range r.hits {
+				hits = append(hits, hitRec{"exhaustive: " + w, sc})
+			}
+		}
+	}
+	rec = func() {
+		runSeq()
+		if len(seq) == depth {
+			return
+		}
+		for l := 0; l < letters; l++ {
+			seq = append(seq, l)
+			rec()
+			seq = seq[:len(seq)-1]
+		}
+	}
+	rec()
+	return count, hits
+}
+
 // ---- sub-commands -------------------------------------------------------------
 
 type hitRec struct {
@@ -974,10 +1084,19 @@ func loadCorpus(dir string) []*Scenario {
 	return out
 }
 
-func gen(seed uint64, n int, outDir, corpusDir string) {
+func gen(seed uint64, n int, outDir, corpusDir string, exhaustiveDepth int) {
 	rng := vf.NewRng(seed)
 	res := vf.NewResult("C18", seed)
 	var runs []*runner
+	if exhaustiveDepth > 0 {
+		cnt, hs := exhaustive(exhaustiveDepth)
+		res.Extra["exhaustive_sequences"] = cnt
+		res.Extra["exhaustive_depth"] = exhaustiveDepth
+		res.Distribution["exhaustive_small_scope_sequences"] = cnt
+		for _, h := range hs {
+			res.OracleHits = append(res.OracleHits, h)
+		}
+	}
 	for _, sc := range loadCorpus(corpusDir) {
 		runs = append(runs, replayScenario(sc))
 		res.Count("corpus")
@@ -1024,7 +1143,7 @@ func gen(seed uint64, n int, outDir, corpusDir string) {
 	res.Cases = len(runs)
 	res.Distinct = len(distinct)
 	res.Extra["operations"] = ops
-	res.Rule = "a case is one scripted history on a fresh queue (cache 1..128 slots, start number, chain of 1..300 headers with empty and non-empty blocks, 1..8 peers that are honest / stall / lie / answer empty / answer partially) ending with 'all requests expire, one fresh honest peer answers'; every operation's return value and a state digest, and the full final state, are compared with the Coq model; 30% of the histories may leave the downloader's discipline (stale CancelBodies, Schedule from a wrong number); non-trivial = at least one request handed out or one block released; distinct by full text"
+	res.Rule = "a case is one scripted history on a fresh queue (cache 1..128 slots, start number, chain of 1..300 headers with empty and non-empty blocks, 1..8 peers that are honest / stall / lie / answer empty / answer partially) ending with 'all requests expire, one fresh honest peer answers'; every operation's return value and a state digest, and the full final state, are compared with the Coq model; 30% of the histories may leave the downloader's discipline (stale CancelBodies, Schedule from a wrong number); non-trivial = at least one request handed out or one block released; distinct by full text. In addition (first shard, oracle only): every sequence of up to 3 (quick) / 4 (thorough) letters of a 13-letter alphabet on 2 peers x 4 blocks x 2 cache slots, each followed by the finishing phase"
 	res.Write(filepath.Join(outDir, "result.json"))
 }
 
@@ -1076,17 +1195,25 @@ func main() {
 	out := flag.String("out", ".", "")
 	corpus := flag.String("corpus", "/verif/corpus/C18", "")
 	file := flag.String("file", "", "")
+	tier := flag.String("tier", "quick", "")
 	flag.Parse()
 	params.InitNetworkId(params.NetworkIdForTestCase)
 	logging.Root().SetHandler(logging.DiscardHandler())
 	// common.Report prints a stack trace to stderr whenever the queue hits its
 	// "index allocation went beyond available resultCache space" branch
-	if devnull, err := os.OpenFile(os.DevNull, os.O_WRONLY, 0); err == nil && mode == "gen" {
+	if devnull, err := os.OpenFile(os.DevNull, os.O_WRONLY, 0); err == nil && (mode == "gen" || mode == "replay") {
 		os.Stderr = devnull
 	}
 	switch mode {
 	case "gen":
-		gen(*seed, *n, *out, *corpus)
+		depth := 0
+		if _, err := os.Stat(*corpus); err == nil { // first shard only (later shards get a non-existing corpus dir)
+			depth = 3
+			if *tier == "thorough" {
+				depth = 4
+			}
+		}
+		gen(*seed, *n, *out, *corpus, depth)
 	case "replay":
 		replay(*file)
 	default:
